@@ -631,6 +631,8 @@ class Engine:
             return st.locals[name]
         if fr.spec and name in fr.entry_locals:
             return fr.entry_locals[name]
+        if fr.spec and ("$ghost_" + name) in st.locals:
+            return st.locals["$ghost_" + name]
         if name in ("True", "False"):
             return V(BOOL, z3.BoolVal(name == "True"))
         if name in self.prog.enums:
